@@ -14,6 +14,7 @@ import (
 	"github.com/elastos/Elastos.ELA/core/types/common"
 
 	"verifharness/elaenv"
+	"verifharness/fixture"
 	"verifharness/lib"
 )
 
@@ -170,20 +171,42 @@ func main() {
 		{1 * time.Minute, 10 * time.Second, 4, 0x1e03ffff},
 		{100 * time.Second, 10 * time.Second, 3, 0x1d00ffff},
 		{24 * time.Hour, 2 * time.Minute, 4, 0},
+		{1 * time.Hour, 7 * time.Minute, 4, 0x1e03ffff},  // timespan not a multiple of the block time
+		{50 * time.Second, 7 * time.Second, 3, 0x1d00ffff}, // neither a multiple of the block time nor of the factor
 	}
-	for i := 0; i < run.N(200, 5000); i++ {
-		pc := cfgs[rng.Intn(len(cfgs))]
-		params := *config.GetDefaultParams()
-		pw := &params.PowConfiguration
+	mainBits, mainLimit := config.DefaultParams.PowConfiguration.PowLimitBits, config.DefaultParams.PowConfiguration.PowLimit
+	setPow := func(pw *config.PowConfiguration, pc pcfg) {
 		pw.TargetTimespan, pw.TargetTimePerBlock, pw.AdjustmentFactor = pc.timespan, pc.perblock, pc.factor
 		pw.PowLimitBits = pc.limitBits
 		pw.PowLimit = blockchain.CompactToBig(pc.limitBits)
 		if pc.limitBits == 0 { // the built-in main net pair, untouched (PowLimitBits is not the compact form of PowLimit there)
-			pw.PowLimitBits = config.DefaultParams.PowConfiguration.PowLimitBits
-			pw.PowLimit = config.DefaultParams.PowConfiguration.PowLimit
+			pw.PowLimitBits = mainBits
+			pw.PowLimit = mainLimit
+		}
+	}
+	// The BlockChain objects come from the real constructor blockchain.New (through the chain fixture), so
+	// the retarget bounds are the ones the node computes, not a copy of that computation.
+	chains := make([]*blockchain.BlockChain, len(cfgs))
+	for ci, pc := range cfgs {
+		pc := pc
+		f, err := fixture.New(fixture.Options{Tune: func(p *config.Configuration) { setPow(&p.PowConfiguration, pc) }})
+		if err != nil {
+			panic(err)
+		}
+		chains[ci] = f.Chain
+		f.Close()
+	}
+	elaenv.InitLog(run.Out)
+	for i := 0; i < run.N(200, 5000); i++ {
+		ci := rng.Intn(len(cfgs))
+		pc := cfgs[ci]
+		params := *config.GetDefaultParams()
+		pw := &params.PowConfiguration
+		setPow(pw, pc)
+		if pc.limitBits == 0 {
 			pc.limitBits = blockchain.BigToCompact(pw.PowLimit)
 		}
-		bc := blockchain.NewRetargetVerif(&params)
+		bc := chains[ci]
 		per := uint32(pc.timespan / pc.perblock)
 		T := int64(pc.timespan / time.Second)
 		// build a chain of nodes of heights h0 .. h0+per-1 ending just before a retarget height
